@@ -734,7 +734,13 @@ class DoIPConnection:
         payload = AliveCheckResponse(
             SourceAddress=self.src_addr,
         )
-        await self.write_request_raw(hdr, payload)
+        # No acknowledgement is expected for this message, so it must not wait for the
+        # mutex: it is held while a diagnostic message awaits its ACK and while a read
+        # blocks on the queue, and the alive check is answered by the reader task itself.
+        self.writer.write(hdr.pack() + payload.pack())
+        await self.writer.drain()
+
+        logger.trace("Sent DoIP message: hdr: %s, payload: %s", hdr, payload)
 
     async def close(self) -> None:
         logger.debug("Closing DoIP connection...")
